@@ -248,13 +248,11 @@ Fixpoint process (fuel : nat) (c : client) (e : event) : client * rk :=
        consumed (re-delivery in the same MLS state) cannot be decrypted again *)
     if existsb (N.eqb (100000 + e_id e)) (k_seen k) then fail_unprocessable c e rec_epoch else
     let k0 := with_seen (with_props k (k_props k ++ [e_id e])) ((100000 + e_id e) :: k_seen k) in
-    if is_admin c && (match k_pending k with Some _ => true | None => false end) then
-      (* auto_commit_proposal stores the proposal, then commit_to_pending_proposals fails because a commit is already
-         pending: the event is reported Unprocessable although the proposal store has changed *)
-      fail_unprocessable (set_core c k0) e rec_epoch
-    else
-    let k1 := if is_admin c then with_pending k0 (Some (1000 + e_id e * 8 + me c, 0, [e_author e])) else k0 in
-    (put_dedup (set_core c k1) (e_id e) PS_PROCESSED (Some (k_epoch k)) None, if is_admin c then RAuto else RPending)
+    (* an admin receiver auto-commits the leave - unless a commit of its own is already pending: then (since the fix) it
+       keeps the proposal pending like any other receiver *)
+    let auto := is_admin c && (match k_pending k with Some _ => false | None => true end) in
+    let k1 := if auto then with_pending k0 (Some (1000 + e_id e * 8 + me c, 0, [e_author e])) else k0 in
+    (put_dedup (set_core c k1) (e_id e) PS_PROCESSED (Some (k_epoch k)) None, if auto then RAuto else RPending)
   else
     (* commit from another member at the current epoch: OpenMLS needs every proposal committed by reference in the
        receiver's own proposal store *)
